@@ -17,6 +17,7 @@ def run(repo, res, tier):
     effects.rule_e3(repo, res)
     effects.rule_e4(repo, res)
     effects.rule_e5(repo, res)
+    effects.rule_e6(repo, res)
     from .. import hookrules
     hookrules.rule_hook_tail(repo, res)
     from .. import langrules
